@@ -439,7 +439,13 @@ def check(prop, tier):
     ev = vlib.Evidence(prop, tier)
     bt = vlib.build_harness("yx")
     wd = os.path.join(vlib.WORK, "run-%s" % prop)
-    plan = TIERS[tier]
+    plan = dict(TIERS[tier])
+    only = os.environ.get("VERIF_ONLY_GROUPS")      # development aid (mutant triage): e.g. "c3x,p2x,deepx00"; never set by registered checks
+    if only:
+        only = set(only.split(","))
+        plan["gen"] = [g for g in plan["gen"] if g in only]
+        plan["deep_ix"] = [i for i in range(plan["deep"]) if "deep%02d" % i in only]
+        plan["deepx_ix"] = [i for i in range(plan["deepx"]) if "deepx%02d" % i in only]
     results = []
     exhaustive = []
     for g in plan["gen"]:
@@ -454,11 +460,11 @@ def check(prop, tier):
             exhaustive.append(g)
         for s in r["samples"]:
             ev.sample(s)
-    for i in range(plan["deep"]):
+    for i in plan.get("deep_ix", range(plan["deep"])):
         r = run_deep(i, tier, wd)
         results.append(r)
         ev.add_v(r["group"], r["merged"], r["nontrivial"], r["v_wall"])
-    for i in range(plan["deepx"]):
+    for i in plan.get("deepx_ix", range(plan["deepx"])):
         r = run_deepx(i, tier, wd)
         results.append(r)
         ev.add_v(r["group"], r["merged"], r["nontrivial"], r["v_wall"])
